@@ -20,7 +20,12 @@ class _OldRewriter(ast.NodeTransformer):
             self.olds.append(node.args[0])
             return ast.Subscript(value=ast.Name(id='__old', ctx=ast.Load()),
                                  slice=ast.Constant(value=len(self.olds) - 1), ctx=ast.Load())
-        return self.generic_visit(node)
+        node = self.generic_visit(node)
+        if isinstance(node.func, ast.Name) and node.func.id == 'implies' and len(node.args) == 2:
+            # short-circuit natively: the consequent may be undefined when the antecedent is false
+            return ast.BoolOp(op=ast.Or(), values=[ast.UnaryOp(op=ast.Not(), operand=node.args[0]),
+                                                   node.args[1]])
+        return node
 
 
 def _compile(expr):
@@ -101,7 +106,7 @@ def native_check(contract, args, kwargs=None, only=None, window=12, with_domain=
     try:
         for rq in contract.requires + (contract.domain if with_domain else []):
             code, olds = split_old(rq)
-            if not eval(code, ns, dict(loc, __old=[])):
+            if not eval(code, dict(ns, **loc, __old=[])):
                 return dict(status='pre-false', failed=[rq], detail='')
     except Exception as ex:
         return dict(status='pre-false', failed=['<requires raised>'], detail=repr(ex))
@@ -112,16 +117,23 @@ def native_check(contract, args, kwargs=None, only=None, window=12, with_domain=
         vals = []
         for o in olds:
             try:
-                vals.append(copy.deepcopy(eval(o, ns, dict(loc))))
+                vals.append(copy.deepcopy(eval(o, dict(ns, **loc))))
             except Exception as ex:
                 vals.append(ex)
         compiled[name] = (code, vals)
     raise_conds = {}
     for exc, cond in contract.raises.items():
         try:
-            raise_conds[exc] = bool(eval(_compile(ast.parse(cond.strip(), mode='eval').body), ns, dict(loc)))
+            raise_conds[exc] = bool(eval(split_old(cond)[0], dict(ns, **loc, __old=[])))
         except Exception as ex:
             raise_conds[exc] = ex
+    must_return = False
+    if contract.returns_when:
+        try:
+            must_return = all(bool(eval(split_old(w)[0], dict(ns, **loc, __old=[])))
+                              for w in contract.returns_when)
+        except Exception:
+            must_return = False
     failed = []
     detail = []
     try:
@@ -133,6 +145,9 @@ def native_check(contract, args, kwargs=None, only=None, window=12, with_domain=
     except Exception as ex:
         raised = ex
         result = None
+    if raised is not None and must_return:
+        failed.append(f'returns-normally-when-supported[{type(raised).__name__}]')
+        detail.append(f'raised {raised!r} although every returns_when condition holds')
     if raised is not None:
         declared = None
         for exc in contract.raises:
@@ -163,7 +178,7 @@ def native_check(contract, args, kwargs=None, only=None, window=12, with_domain=
             if only is not None and name not in only:
                 continue
             try:
-                ok = bool(eval(code, ns, dict(loc2, __old=vals)))
+                ok = bool(eval(code, dict(ns, **loc2, __old=vals)))
             except Exception as ex:
                 ok = False
                 detail.append(f'ensures[{name}] raised {ex!r}')
